@@ -98,7 +98,7 @@ def worker(kp, job):
     filters += [[c for c in CATS if c not in drop]]
     for f in filters:
         fa = None if f is None else [TC[c] for c in f]
-        key = rng.choice([None, 'COM', 'O', 'ONB'])
+        key = rng.choice([None, 'COM', 'O', 'ONB', 'SEGMENT', '!SEGMENT', '!COM', 'S', '!'])
         try:
             lst = doc.get_all_tokens(filter_by_categories=fa)
             uni = doc.get_unique_tokens(filter_by_categories=fa)
